@@ -109,6 +109,8 @@ impl<T: Sync + Send + 'static> Worker<T> {
                         idx: u32::MAX,
                     };
                 };
+                #[cfg(nucleo_verif)]
+                crate::verif::point("run.score_item", idx as u64);
                 if self.canceled.load(atomic::Ordering::Relaxed) {
                     return Match { score: 0, idx };
                 }
@@ -196,6 +198,8 @@ impl<T: Sync + Send + 'static> Worker<T> {
                 .par_iter_mut()
                 .take_any_while(|_| !self.canceled.load(atomic::Ordering::Relaxed))
                 .for_each(|match_| {
+                    #[cfg(nucleo_verif)]
+                    crate::verif::point("run.score_item", match_.idx as u64);
                     if match_.idx == u32::MAX {
                         debug_assert_eq!(match_.score, 0);
                         unmatched.fetch_add(1, atomic::Ordering::Relaxed);
